@@ -74,6 +74,17 @@ def impl_main():
     from pyscsi.pyscsi.scsi_opcode import OpCode
     cases = json.load(sys.stdin)
     out = []
+    # before any command class is used, the generic base class is used on its own — to hand-build a command the library has no class for:
+    # what the classes build afterwards must not depend on that (anything the base class remembers would be inherited by all of them)
+    try:
+        from pyscsi.pyscsi.scsi_command import SCSICommand
+        from pyscsi.pyscsi.scsi_enum_command import sbc
+        _b = SCSICommand(sbc.TEST_UNIT_READY, 0, 0)
+        _b.build_cdb(opcode=0)
+        SCSICommand.marshall_cdb({"opcode": 0})
+        SCSICommand.unmarshall_cdb(bytearray(6))
+    except Exception:  # noqa
+        pass
     for c in cases:
         mod = importlib.import_module("pyscsi.pyscsi." + c["stem"])
         cls = getattr(mod, c["cls"])
